@@ -228,6 +228,23 @@ def prove(pc, goal, timeout_ms=None, extra=()):
         return 'proved', None, ms, 'z3'
     if r == z3.sat:
         return 'refuted', s.model(), ms, 'z3'
+    if timeout_ms is None or timeout_ms > 2000:
+        # z3's verdict on mixed integer / real and quantified goals depends on its random seed (observed: a
+        # valid quantifier-free lemma proved under 7 of 24 seeds): two more seeds before anything slower
+        for seed in (11, 4242):
+            s2 = z3.Solver()
+            s2.set('timeout', 2500)
+            s2.set('random_seed', seed)
+            for a in extra:
+                s2.add(a)
+            for c in pc:
+                s2.add(c)
+            s2.add(z3.Not(goal))
+            r2 = s2.check()
+            if r2 == z3.unsat:
+                return 'proved', None, int((time.time() - t0) * 1000), 'z3 (seed %d)' % seed
+            if r2 == z3.sat:
+                return 'refuted', s2.model(), int((time.time() - t0) * 1000), 'z3 (seed %d)' % seed
     fm = None
     try:
         fm = finite_model_search(pc, goal, extra)
